@@ -96,10 +96,14 @@ def elaborate(tree):
                         regd.next |= regd          # explicit hold of a register that has a default
                     elif tg == 'mem':
                         nm_ = tags[(path + (i,), tg_)]
+                        # every write goes through its OWN address wire object (all carry maddr's value): the
+                        # target of the exclusion check is the memory, not the address expression
+                        ma = pyrtl.WireVector(1, 'ma_' + nm_)
+                        ma <<= maddr
                         if nm_ in ens:
-                            mem[maddr] |= pyrtl.MemBlock.EnabledWrite(v, ens[nm_])
+                            mem[ma] |= pyrtl.MemBlock.EnabledWrite(v, ens[nm_])
                         else:
-                            mem[maddr] |= v
+                            mem[ma] |= v
             with ctx:
                 # a target written 't!' is assigned AFTER the nested blocks of this branch
                 assign([t for t in asg if not t.endswith('!')])
